@@ -40,7 +40,12 @@ type grpcRec struct {
 	completed []J
 	ran       int
 	grant     bool
+	grantBy   map[string]bool // per limiter, for operations that overlap
 }
+
+// grpcMsg is the message of an overlapping stream operation: it carries what the doubles need to answer for
+// this operation (the code the custom limit-exceeded classifier must choose, the response classification).
+type grpcMsg struct{ le, cls string }
 
 type recLimiter struct {
 	name string
@@ -65,7 +70,11 @@ func (l *recLimiter) Acquire(ctx context.Context) (core.Listener, bool) {
 	l.r.mu.Lock()
 	defer l.r.mu.Unlock()
 	l.r.asked = append(l.r.asked, l.name)
-	if !l.r.grant {
+	g := l.r.grant
+	if v, ok := l.r.grantBy[l.name]; ok {
+		g = v
+	}
+	if !g {
 		return nil, false
 	}
 	return &recGrpcListener{name: l.name, r: l.r}, true
@@ -121,6 +130,9 @@ func leCode(req interface{}) codes.Code {
 	if s, _ := req.(string); s == "Aborted" {
 		return codes.Aborted
 	}
+	if m, ok := req.(grpcMsg); ok && m.le == "Aborted" {
+		return codes.Aborted
+	}
 	return codes.Unavailable
 }
 
@@ -143,6 +155,9 @@ func newGrpcStack(cfg grpcCfg) *grpcStack {
 			return clsOf(st.op.Cls)
 		}))
 		f := func(ctx context.Context, req interface{}, info *golangGrpc.StreamServerInfo, err error) grpclimit.ResponseType {
+			if m, ok := req.(grpcMsg); ok {
+				return clsOf(m.cls)
+			}
 			return clsOf(st.op.Cls)
 		}
 		sopts = append(sopts, grpclimit.WithStreamClientResponseTypeClassifier(f), grpclimit.WithStreamServerResponseTypeClassifier(f))
